@@ -8,11 +8,9 @@
 pub mod util;
 pub mod task;
 pub mod c07;
-pub mod c10;
 pub mod c18;
 
 pub use c07::*;
-pub use c10::*;
 pub use c18::*;
 
 mod playback {
